@@ -1537,3 +1537,176 @@ func ruleInitFresh(p *Prog, r *Result) {
 	}
 	r.floor("cursor plans", n, 3)
 }
+
+// ---------------- LIMITGUARD ----------------
+
+func init() {
+	register("LIMITGUARD", "typestate of the limit counter in the three limit consumers (FinalLimitPlan, LimitPlan, AggregatePlan): a row is emitted (appended to the returned batch, or returned by Next), and in row mode the row to be emitted is fetched, only in the state `the emitted-rows counter was tested against the limit and found smaller, and has not been incremented since` (or under `no limit`); the counter tested is one that is incremented only where a row is emitted (not the position counter that also counts skipped rows)", ruleLimitGuard)
+}
+
+func ruleLimitGuard(p *Prog, r *Result) {
+	n := 0
+	for _, tn := range []string{"FinalLimitPlan", "LimitPlan", "AggregatePlan"} {
+		t := p.Named(tn)
+		if t == nil {
+			r.undecided("anchor: %s not found", tn)
+			continue
+		}
+		limitField := map[string]bool{"Count": true, "Limit": true}
+		for _, mn := range []string{"Next", "Batch"} {
+			fn := p.Method(t, mn)
+			if fn == nil || len(fn.Blocks) == 0 {
+				continue
+			}
+			recv := ssa.Value(fn.Params[0])
+			fieldOfLoad := func(v ssa.Value) string {
+				if _, f, base, ok := loadedField(v); ok && base == recv {
+					return f
+				}
+				return ""
+			}
+			// the counter: the field compared with the limit field
+			counter := ""
+			type edgeKey struct {
+				b  *ssa.BasicBlock
+				si int
+			}
+			pass := map[edgeKey]bool{}
+			for _, b := range fn.Blocks {
+				for si := range b.Succs {
+					a, ok := edgeAtom(b, si)
+					if !ok {
+						continue
+					}
+					x, y, op := a.X, a.Y, a.Op
+					if limitField[fieldOfLoad(x)] && !limitField[fieldOfLoad(y)] {
+						x, y, op = y, x, swapOp(op)
+					}
+					if limitField[fieldOfLoad(y)] && fieldOfLoad(x) != "" && (op == token.LSS) {
+						counter = firstNonEmpty(counter, fieldOfLoad(x))
+						if fieldOfLoad(x) == counter {
+							pass[edgeKey{b, si}] = true
+						}
+					}
+					// no limit at all: Limit < 0
+					if limitField[fieldOfLoad(a.X)] && a.Op == token.LSS {
+						if k, isC := constInt(a.Y); isC && k == 0 {
+							pass[edgeKey{b, si}] = true
+						}
+					}
+				}
+			}
+			key := tn + "." + mn
+			if counter == "" {
+				n++
+				r.hit(key+"|test", p.Pos(fn.Pos()), "no comparison of an emitted-rows counter with the limit found")
+				continue
+			}
+			// (b) the counter is incremented only where a row is emitted: all its increments are in this method or its twin,
+			// never in a helper that the skip loop uses too
+			n++
+			badInc := ""
+			for _, f2 := range p.staticClosureOfMethods(t) {
+				allInstrs(f2, func(in ssa.Instruction) {
+					st, ok := in.(*ssa.Store)
+					if !ok {
+						return
+					}
+					if o, f, _, ok := fieldOfAddr(st.Addr); ok && o == t && f == counter {
+						if k, isC := constInt(st.Val); isC && k == 0 {
+							return // reset
+						}
+						if f2.Name() != "Next" && f2.Name() != "Batch" {
+							badInc = fmt.Sprintf("field %s, which is compared with the limit, is also advanced in %s (%s): it counts more than the emitted rows", counter, p.FName(f2), p.InstrPos(st))
+						}
+					}
+				})
+			}
+			r.add(badInc == "", key+"|counter", p.Pos(fn.Pos()), firstNonEmpty(badInc, "the counter compared with the limit ("+counter+") is advanced only in Next/Batch"))
+			// (a) where can control be in the state "counter not tested since the last increment (or since entry)"?
+			// Explore forward from the entry and from every increment of the counter, not crossing an edge on which the
+			// test passed, tracking the Boolean loop flags (a `finish = true; break` leaves the outer loop).
+			incrementsCounter := func(in ssa.Instruction) bool {
+				st, ok := in.(*ssa.Store)
+				if !ok {
+					return false
+				}
+				o, f, base, ok := fieldOfAddr(st.Addr)
+				return ok && o == t && f == counter && base == recv
+			}
+			blocked := func(from, to *ssa.BasicBlock) bool {
+				for si, sc := range from.Succs {
+					if sc == to && pass[edgeKey{from, si}] {
+						return true
+					}
+				}
+				return false
+			}
+			untested := map[*ssa.BasicBlock]bool{} // blocks that can be entered untested
+			untestedFrom := map[*ssa.BasicBlock]bool{}
+			// entry: the whole entry block is untested
+			untested[fn.Blocks[0]] = true
+			seedEdges := func(b *ssa.BasicBlock) {
+				for _, sc := range b.Succs {
+					if blocked(b, sc) {
+						continue
+					}
+					for blk := range exploreAfterFailure(fn, b, sc, nil, blocked) {
+						untested[blk] = true
+					}
+				}
+			}
+			seedEdges(fn.Blocks[0])
+			for _, b := range fn.Blocks {
+				for _, in := range b.Instrs {
+					if incrementsCounter(in) {
+						untestedFrom[b] = true
+					}
+				}
+				if untestedFrom[b] {
+					seedEdges(b)
+				}
+			}
+			stateAt := func(at ssa.Instruction) bool {
+				b := at.Block()
+				s := !untested[b]
+				for _, in := range b.Instrs {
+					if in == at {
+						return s
+					}
+					if incrementsCounter(in) {
+						s = false
+					}
+				}
+				return s
+			}
+			// emissions
+			idx := 0
+			for _, b := range fn.Blocks {
+				ret := retOf(b)
+				if ret == nil || len(ret.Results) < 2 || isNilConst(retVal(ret, 0)) || !isNilConst(retVal(ret, 1)) {
+					continue
+				}
+				if mn == "Next" {
+					// the fetch of that row (the increment between fetch and return belongs to the emission)
+					backward(retVal(ret, 0), func(v ssa.Value) bool {
+						if c, ok := v.(*ssa.Call); ok {
+							n++
+							idx++
+							r.add(stateAt(c), fmt.Sprintf("%s|fetch#%d", key, idx), p.InstrPos(c), "the row to be returned is fetched only after the emitted-rows counter was found below the limit (a full window must not pull, and evaluate, one more child row)")
+							return false
+						}
+						return true
+					})
+				} else {
+					for _, ap := range appendsInto(retVal(ret, 0)) {
+						n++
+						idx++
+						r.add(stateAt(ap), fmt.Sprintf("%s|emit#%d", key, idx), p.InstrPos(ap), "a row is appended to the batch only after the emitted-rows counter was found below the limit, with no increment in between (`limit s, 0` must emit nothing)")
+					}
+				}
+			}
+		}
+	}
+	r.floor("limit typestate obligations", n, 12)
+}
